@@ -33,6 +33,8 @@ import (
 //	     ag = EnableAuthgrants, each a(bsent) | t | f; ca: the CA root is listed in CAFiles;
 //	     granted: an authorization grant for the client's key was added before it connects
 //	     -> h=<a real client completed the handshake over loopback UDP and the server accepted it>
+//	hid <top|names|both>   a hidden-mode server whose KEM key is configured at the top level / in the host block / both
+//	     -> d=<a discoverable handshake succeeded> k=<the handshake of a client that knows the KEM key succeeded>
 //	sni <match|nomatch|type7f-nomatch|type7f-match|empty|ipv4|ipv4-other|binary>
 //	     a server with ONE virtual host and no `*` block; the client asks for that name kind
 //	     -> h=<0|1> p=<virtual host whose certificate was presented: 0 | 1 | none> a=<an honest client is served afterwards>
@@ -273,6 +275,51 @@ func runCfgLine(f []string) string {
 			}
 			return fmt.Sprintf("h=%d", b(connect(srv, addr, f[7], certs.RawStringName(tnet.ServerName), kp)))
 		})
+	case len(f) == 2 && f[0] == "hid" && (f[1] == "top" || f[1] == "names" || f[1] == "both"):
+		// a hidden-mode server (HiddenModeVHostNames set) whose KEM key is configured at the top level, only in
+		// the virtual host's block, or in both: it is silent towards a discoverable ClientHello and serves the
+		// client that knows its KEM key
+		return Guard(func() string {
+			fl := files()
+			sc := &config.ServerConfig{ListenAddress: "127.0.0.1:0", HandshakeTimeout: 15 * time.Second, InsecureSkipVerify: true,
+				HiddenModeVHostNames: []string{cfgHost}}
+			nc := config.NameConfig{Pattern: cfgHost, Key: fl.srvKey, Certificate: fl.srvLeaf, Intermediate: hs.PKI().Inter}
+			switch f[1] {
+			case "top":
+				sc.Key, sc.Certificate, sc.Intermediate, sc.KEMKey = fl.srvKey, fl.srvLeaf, hs.PKI().Inter, fl.srvKEM
+			case "names":
+				nc.KEMKey = fl.srvKEM
+				sc.Names = []config.NameConfig{nc}
+			case "both":
+				nc.KEMKey = fl.srvKEM
+				sc.Names = []config.NameConfig{nc}
+				sc.Key, sc.Certificate, sc.Intermediate, sc.KEMKey = fl.srvKey, fl.srvLeaf, hs.PKI().Inter, fl.srvKEM
+			}
+			sock := filepath.Join(fl.dir, fmt.Sprintf("ag-%d.sock", time.Now().UnixNano()))
+			sc.AgProxyListenSocket = &sock
+			srv, err := hopserver.NewHopServer(sc)
+			if err != nil {
+				return "setup-failed"
+			}
+			defer srv.Server.Close()
+			addr, _ := srv.Server.Addr().(*net.UDPAddr)
+			go srv.Server.Serve()
+			p := hs.PKI()
+			dial := func(kem *keys.KEMPublicKey) bool {
+				kp := keys.GenerateNewX25519KeyPair()
+				ccfg := transport.ClientConfig{Exchanger: kp, Leaf: p.Leaf(kp.Public, certs.RawStringName("client")), Intermediate: p.Inter,
+					HSTimeout: 2 * time.Second, ServerKEMKey: kem,
+					Verify: transport.VerifyConfig{Store: p.Store, Name: certs.RawStringName(cfgHost)}}
+				c, err := transport.Dial("udp", addr.String(), ccfg)
+				if err != nil {
+					return false
+				}
+				defer c.Close()
+				return c.Handshake() == nil
+			}
+			pub := fl.srvKEM.Public
+			return fmt.Sprintf("d=%d k=%d", b(dial(nil)), b(dial(&pub)))
+		})
 	case len(f) == 2 && f[0] == "sni":
 		var name certs.Name
 		switch f[1] {
@@ -347,6 +394,9 @@ func genCfg(g *GenCtx) {
 	}
 	for _, k := range sniKinds {
 		g.Op("sni %s", k)
+	}
+	for _, k := range []string{"top", "names", "both"} {
+		g.Op("hid %s", k)
 	}
 	g.Op("cfg toml x a a a 0 ok 0")
 	g.Op("sni frob")
